@@ -468,7 +468,7 @@ func (e *Engine) fieldLoc(parent *Loc, idx int) *Loc {
 		if !e.once[key] {
 			e.once[key] = true
 			e.useSub = true
-			e.assume(fmt.Sprintf("(and (= (subp %s) %s) (= (subi %s) %d) (< %s 0))", ref, parent.Ref, ref, idx, ref))
+			e.assume(fmt.Sprintf("(and (= (subp %s) %s) (= (subi %s) %d) (not (= %s 0)) (= (> %s pre) (> %s pre)))", ref, parent.Ref, ref, idx, ref, ref, parent.Ref))
 		}
 		return &Loc{Kind: LObj, Ref: ref, T: ft}
 	}
@@ -476,13 +476,34 @@ func (e *Engine) fieldLoc(parent *Loc, idx int) *Loc {
 }
 
 func (e *Engine) loadScalar(h *Heap, l *Loc, sort, suffix string) string {
+	t, _ := e.loadScalarF(h, l, sort, suffix)
+	return t
+}
+
+// loadScalarF also reports whether the value was found by syntactic store-to-load forwarding
+// (the location was written earlier in this execution with exactly this index term).
+func (e *Engine) loadScalarF(h *Heap, l *Loc, sort, suffix string) (string, bool) {
 	name, idx := e.compName(l)
 	name += suffix
 	arr := e.comp(h, name, sort, len(idx) == 2)
 	if len(idx) == 2 {
-		return fmt.Sprintf("(select (select %s %s) %s)", arr, idx[0], idx[1])
+		return fmt.Sprintf("(select (select %s %s) %s)", arr, idx[0], idx[1]), false
 	}
-	return fmt.Sprintf("(select %s %s)", arr, idx[0])
+	for sym := arr; ; {
+		d, ok := e.storeDefs[sym]
+		if !ok {
+			break
+		}
+		if d.idx == idx[0] {
+			return d.val, true
+		}
+		if strings.HasPrefix(d.idx, "|alloc.") && strings.HasPrefix(idx[0], "|alloc.") {
+			sym = d.prev // two different allocations never alias
+			continue
+		}
+		break
+	}
+	return fmt.Sprintf("(select %s %s)", arr, idx[0]), false
 }
 
 func (e *Engine) storeScalar(h *Heap, l *Loc, sort, suffix, v string) {
@@ -496,12 +517,47 @@ func (e *Engine) storeScalar(h *Heap, l *Loc, sort, suffix, v string) {
 		nt = fmt.Sprintf("(store %s %s %s)", arr, idx[0], v)
 	}
 	e.setComp(h, name, nt)
+	if len(idx) == 1 {
+		e.storeDefs[h.m[name]] = storeDef{prev: arr, idx: idx[0], val: v}
+	}
 }
 
 // pristine reports whether the named component still has its function-entry contents.
 func (e *Engine) pristine(h *Heap, l *Loc, suffix string) bool {
 	name, _ := e.compName(l)
 	return !h.dirty[name+suffix]
+}
+
+// water is the allocation watermark: every reference that exists now is at most this value; every later
+// allocation is above it.
+func (e *Engine) water() string {
+	if e.lastAlloc == "" {
+		return "pre"
+	}
+	return e.lastAlloc
+}
+
+// bumpWater introduces a new watermark after code that may have allocated (a call, earlier loop iterations).
+func (e *Engine) bumpWater(prefix string) string {
+	m := e.fresh(prefix+".mark", "Int")
+	e.assume(fmt.Sprintf("(>= %s %s)", m, e.water()))
+	e.lastAlloc = m
+	return m
+}
+
+// preFact: a pre-existing object's unmodified field holds a pre-existing reference.
+func (e *Engine) preFact(l *Loc, v string) string {
+	root := l
+	for root.Kind == LField {
+		root = root.Parent
+	}
+	var idx string
+	if root.Kind == LObj {
+		idx = root.Ref
+	} else {
+		idx = root.Base
+	}
+	return fmt.Sprintf("(=> (<= %s pre) (<= %s pre))", idx, v)
 }
 
 // load reads the value at location l. named=false yields raw select terms (used in specifications).
@@ -516,8 +572,9 @@ func (e *Engine) load(h *Heap, l *Loc) Val {
 		}
 		e.assume(e.sliceInv(s))
 		if e.pristine(h, l, ".b") {
-			e.assume(fmt.Sprintf("(<= %s pre)", s.B))
+			e.assume(e.preFact(l, s.B))
 		}
+		e.assume(fmt.Sprintf("(<= %s %s)", s.B, e.water()))
 		return s
 	case *types.Struct:
 		sv := StructV{}
@@ -526,10 +583,15 @@ func (e *Engine) load(h *Heap, l *Loc) Val {
 		}
 		return sv
 	case *types.Pointer:
-		r := e.define("ld.p", "Int", e.loadScalar(h, l, "Int", ""))
-		if e.pristine(h, l, "") {
-			e.assume(fmt.Sprintf("(<= %s pre)", r))
+		t, fwd := e.loadScalarF(h, l, "Int", "")
+		if fwd {
+			return PtrV{&Loc{Kind: LObj, Ref: t, T: u.Elem()}}
 		}
+		r := e.define("ld.p", "Int", t)
+		if e.pristine(h, l, "") {
+			e.assume(e.preFact(l, r))
+		}
+		e.assume(fmt.Sprintf("(<= %s %s)", r, e.water()))
 		return PtrV{&Loc{Kind: LObj, Ref: r, T: u.Elem()}}
 	case *types.Array:
 		e.unsupp["load-array:"+tname(l.T)]++
@@ -539,12 +601,19 @@ func (e *Engine) load(h *Heap, l *Loc) Val {
 	if so == "" {
 		so = "Int"
 	}
-	v := e.define("ld", so, e.loadScalar(h, l, so, ""))
+	t0, fwd := e.loadScalarF(h, l, so, "")
+	if fwd {
+		return Sc{t0}
+	}
+	v := e.define("ld", so, t0)
 	if rf := rangeFact(l.T, v); rf != "" {
 		e.assume(rf)
 	}
-	if so == "Int" && !isInt(l.T) && e.pristine(h, l, "") {
-		e.assume(fmt.Sprintf("(<= %s pre)", v))
+	if so == "Int" && !isInt(l.T) {
+		if e.pristine(h, l, "") {
+			e.assume(e.preFact(l, v))
+		}
+		e.assume(fmt.Sprintf("(<= %s %s)", v, e.water()))
 	}
 	return Sc{v}
 }
@@ -629,6 +698,31 @@ func (e *Engine) storeComps(l *Loc, out map[string]bool) {
 	}
 	name, _ := e.compName(l)
 	out[name] = true
+}
+
+// objComps lists (component, index) pairs holding the scalar state of the object at l, nested structs included.
+func (e *Engine) objComps(l *Loc, out *[][2]string) {
+	switch u := under(l.T).(type) {
+	case *types.Slice:
+		name, idx := e.compName(l)
+		if len(idx) == 1 {
+			for _, s := range []string{".b", ".o", ".l", ".c"} {
+				*out = append(*out, [2]string{name + s, idx[0]})
+			}
+		}
+		return
+	case *types.Struct:
+		for i := 0; i < u.NumFields(); i++ {
+			e.objComps(e.fieldLoc(l, i), out)
+		}
+		return
+	case *types.Array:
+		return
+	}
+	name, idx := e.compName(l)
+	if len(idx) == 1 {
+		*out = append(*out, [2]string{name, idx[0]})
+	}
 }
 
 func (e *Engine) ptrTerm(v Val) string {
